@@ -121,6 +121,21 @@ class PDFLayoutAnalyzer(PDFTextDevice):
         """Paint paths described in section 4.4 of the PDF reference manual"""
         shape = "".join(x[0] for x in path)
 
+        if shape[:1] == "m" and re.search(r"h[lcvy]", shape):
+            # Per PDF Reference Section 4.4.1, a segment appended after "h"
+            # begins a new subpath at the starting point of the subpath that
+            # was just closed: make that implicit "m" explicit.
+            explicit: List[PathSegment] = []
+            start = path[0]
+            for i, segment in enumerate(path):
+                if segment[0] == "m":
+                    start = segment
+                elif segment[0] in "lcvy" and i > 0 and path[i - 1][0] == "h":
+                    explicit.append(start)
+                explicit.append(segment)
+            path = explicit
+            shape = "".join(x[0] for x in path)
+
         if shape[:1] != "m":
             # Per PDF Reference Section 4.4.1, "path construction operators may
             # be invoked in any sequence, but the first one invoked must be m
